@@ -320,7 +320,7 @@ static int ratom_match(struct ratom *ra, struct rstate *rs)
 	}
 	if (ra->ra == RA_BEG && rs->s == rs->o)
 		return !!(rs->flg & REG_NOTBOL);
-	if (ra->ra == RA_BEG && rs->s > rs->o && rs->s[-1] == '\n')
+	if (ra->ra == RA_BEG && rs->s > rs->o && rs->s[-1] == '\n' && rs->s[0])
 		return !(rs->flg & REG_NEWLINE);
 	if (ra->ra == RA_END && rs->s[0] == '\0')
 		return !!(rs->flg & REG_NOTEOL);
